@@ -1,15 +1,61 @@
 /-
 C18 — bootstrap intervals are reproducible, ordered and shaped like the estimates.
-Property theorems only; helper lemmas live in `Lemmas/Bootstrap.lean`.
+Property theorems only; helper lemmas live in `Lemmas/Bootstrap.lean`, `Lemmas/BootstrapSrc.lean`,
+`Lemmas/BootstrapMore.lean`.
 
 The random number generator is an INPUT of the model (`idxs`: for every bootstrap sample the list
 of row positions it drew); "identical across runs with the same random_state" is therefore the
 statement that every `*_ci` value is a function of (rows, idxs, quantiles) — which it is by
 construction (`Bootstrap.ci` is a Lean function) — plus the harness's replay of the seed stream.
 The statistical reading of "the resamples differ" is outside the model (partial, see the check).
+
+CLAUSE → THEOREM TABLE (review R2; property text of properties.jsonl, clause by clause)
+  1 "every *_ci result is a list with one entry per requested quantile"
+        ci_length, ci_length_and_order (`Ordered qs l` contains `l.length = qs.length`), src_ci_length_and_order
+  2 "each with the same type, columns … as the corresponding point estimate"
+        pandas glue, NOT in the model: lifted flags only (src_order_and_shape: entry i = row i of the quantile array
+        with name/columns/index of the first aligned sample) + harness relations C18.ci_type / ci_columns / ci_index
+  3 "… and (for groups that occur in at least one resample) index as the point estimate"
+        ci_shape (index ⊆ point-estimate index; every drawn group is in it),
+        ci_index_eq_point_estimate (NEW: equality with the point estimate's index once every group is drawn),
+        ci_index_may_be_smaller (NEW: witness that the parenthesis of the clause is needed)
+  4 "entries are element-wise non-decreasing in the quantile"
+        quantile_mono, ci_length_and_order, src_quantile_mono, src_ci_length_and_order
+        (NaN entries: NaN at one quantile iff NaN at all — `XRle` — see nan_skipped_in_frames / nan_propagates_in_series)
+  5 "identical across runs with the same integer random_state"
+        PARTIAL BY NATURE: `ci` is a function of (rows, idxs, qs); src_seed_stream (per-sample seed i from a stream of
+        n_boot entries derived from random_state); that numpy/pandas RNGs are deterministic is trusted; harness
+        relation C18.same_seed (two builds, bitwise equal) and C18.replay (spy metric)
+  6 "every resample draws exactly n rows with replacement from the n data rows"
+        src_draw_count, src_resample_shape, src_with_replacement, resample_has_n_rows
+  7 "the overall row count is n at every quantile"
+        count_is_n, src_count_is_n
+  8 "a metric that is constant over the rows has all quantiles equal to the point estimate"
+        constant_metric_all_quantiles (row-ignoring metric), constant_statistic_all_quantiles (any column),
+        resample_constant_metric_all_quantiles (NEW: ANY metric taking the value v on every drawn resample),
+        identical_rows_all_quantiles (NEW: ANY metric on n identical rows — equals the point estimate)
+  9 "for data on which the metric varies the resamples differ"
+        PARTIAL BY NATURE (behaviour of the RNG): observed per case (tag varying_samples); not a theorem
+ 10 "so a wide quantile pair encloses an interval of positive width around the resampling mean"
+        nonconstant_gives_width (positive width, explicit meaning of "wide"), mean_strictly_between_min_max,
+        extreme_pair_encloses_mean (NEW: Q(0) ≤ mean ≤ Q(1)).  For quantiles strictly inside (0,1) "encloses the mean"
+        is FALSE as a statement about numpy's quantile: wide_pair_need_not_enclose_mean (NEW, witness
+        [0,0,0,100], q = 1/10, 7/10: Q(7/10) = 10 < 25 = mean; replayed with np.quantile).  Only the positive width
+        is checked by the harness (C18.nonconstant_gives_width).
+
+TOTALISATION NOTES (review R2)
+  * `quantileSorted` uses `getD _ 0` and `k - 1 : Nat`: every theorem about it carries `xs ≠ []` and `0 ≤ q ≤ 1`
+    (then both indices are < k, lemma `interp_bounds`); the driver refuses empty lists and q outside the range
+    (`bad-op`), the real code raises on q outside [0,1] (`np.quantile`: "Quantiles must be in the range [0, 1]").
+  * `mean xs = sum / length`: only used with a member `a ∈ xs` / `xs ≠ []`.
+  * `ci … = none` (position out of range, metric error, infinite sample value) is OUTSIDE the model; every theorem
+    about `ci` assumes `= some c`, the driver prints `unsupported` and the check reports that as a harness error —
+    it is never silently skipped.  Examples below show `some` is reached on non-trivial inputs.
+  * `lookupKey` returns NaN when the key is missing (= pandas reindex NaN fill — intended, not a default).
 -/
 import FairModel.Lemmas.Bootstrap
 import FairModel.Lemmas.BootstrapSrc
+import FairModel.Lemmas.BootstrapMore
 
 namespace C18
 open BaseMetrics Weights Bootstrap
@@ -65,6 +111,28 @@ theorem ci_shape (skip : Bool) (m : BMetric) (rows : List WRow) (idxs : List (Li
   exact ⟨ciKeys_subset m rows idxs samples hs,
     fun idx hidx i hi r hr => ciKeys_hit m rows idxs samples hs idx hidx i hi r hr⟩
 
+/-- NEW (R2): when every group of the data is drawn by at least one resample, the index of `by_group_ci` IS the
+    index of the point estimate (`(frameOf m rows).keys = keys rows`, lemma `frameOf_fields`) — same order, no
+    duplicates. -/
+theorem ci_index_eq_point_estimate (skip : Bool) (m : BMetric) (rows : List WRow) (idxs : List (List Nat))
+    (qs : List Rat) (c : CI) (h : ci skip m rows idxs qs = some c)
+    (hall : ∀ key ∈ keys rows, ∃ idx ∈ idxs, ∃ i ∈ idx, ∃ r, rows[i]? = some r ∧ r.g = key) :
+    c.keys = keys rows ∧ (∀ f, frameOf m rows = .ok f → c.keys = f.keys) := by
+  obtain ⟨samples, hs, hk, _⟩ := ci_fields skip m rows idxs qs c h
+  have e := ciKeys_eq_keys m rows idxs samples hs hall
+  exact ⟨hk.trans e, fun f hf => by rw [(frameOf_fields m rows f hf).1]; exact hk.trans e⟩
+
+/-- vacuity: exRows' two groups are both drawn by exIdxs (see below), all hypotheses hold at once -/
+example : ∃ c, ci false (.w (.sel 1)) [⟨0, 1, 1, 1, 1⟩, ⟨1, 0, 0, 0, 1⟩, ⟨1, 1, 0, 0, 1⟩, ⟨0, 0, 1, 1, 1⟩]
+      [[0, 1, 1, 3], [2, 2, 0, 0], [3, 3, 3, 3]] [1/10, 9/10] = some c ∧ c.keys = [0, 1] ∧
+    keys [⟨0, 1, 1, 1, 1⟩, ⟨1, 0, 0, 0, 1⟩, ⟨1, 1, 0, 0, 1⟩, ⟨0, 0, 1, 1, 1⟩] = [0, 1] := by decide +kernel
+
+/-- NEW (R2): the parenthesis "(for groups that occur in at least one resample)" is needed: a group that no
+    resample draws is missing from the `by_group_ci` index although it is in the point estimate's index. -/
+theorem ci_index_may_be_smaller :
+    (ci false .count [⟨0, 1, 1, 1, 1⟩, ⟨1, 0, 0, 0, 1⟩] [[0, 0], [0, 0]] [1/2]).map (·.keys) = some [0] ∧
+    keys [⟨0, 1, 1, 1, 1⟩, ⟨1, 0, 0, 0, 1⟩] = [0, 1] := by decide +kernel
+
 /-! ### 4. every resample has exactly n rows -/
 
 /-- a resample of n positions has n rows: `count` overall is n in every sample ... -/
@@ -92,6 +160,43 @@ theorem constant_statistic_all_quantiles (skip : Bool) (xs : List XR) (hne : xs 
     (h : ciOf skip xs qs = some l) : ∀ x ∈ l, x = .fin v :=
   ciOf_const skip xs hne v hc qs hq l h
 
+/-- NEW (R2): clause 8 at full strength — ANY metric (selection rate, TPR, count, …) that takes the finite value `v`
+    on every resample that is actually drawn has every overall quantile equal to `v`.  (`hlen`: a resample of n ≥ 1
+    rows is non-empty; `constant_metric_all_quantiles` is the special case of a metric that ignores its rows.) -/
+theorem resample_constant_metric_all_quantiles (skip : Bool) (m : BMetric) (v : Rat) (rows : List WRow)
+    (idxs : List (List Nat)) (hne : idxs ≠ []) (hlen : ∀ idx ∈ idxs, idx ≠ [])
+    (hv : ∀ idx ∈ idxs, ∀ rs, pick rows idx = some rs → rs ≠ [] → evalB m rs = .ok v)
+    (qs : List Rat) (hq : ∀ q ∈ qs, 0 ≤ q ∧ q ≤ 1) (c : CI) (h : ci skip m rows idxs qs = some c) :
+    ∀ x ∈ c.overall, x = .fin v :=
+  stat_overall_ci skip m v rows idxs hne hlen hv qs hq c h
+
+/-- NEW (R2): n identical rows — whatever the metric, every resample of n positions is the data itself, so every
+    overall quantile equals the POINT ESTIMATE `evalB m rows`. -/
+theorem identical_rows_all_quantiles (skip : Bool) (m : BMetric) (r : WRow) (n : Nat) (hn : 0 < n)
+    (idxs : List (List Nat)) (hne : idxs ≠ []) (hlen : ∀ idx ∈ idxs, idx.length = n) (v : Rat)
+    (hpt : evalB m (List.replicate n r) = .ok v)
+    (qs : List Rat) (hq : ∀ q ∈ qs, 0 ≤ q ∧ q ≤ 1) (c : CI) (h : ci skip m (List.replicate n r) idxs qs = some c) :
+    ∀ x ∈ c.overall, x = .fin v := by
+  refine stat_overall_ci skip m v _ idxs hne ?_ ?_ qs hq c h
+  · intro idx hi e
+    have := hlen idx hi
+    rw [e] at this; simp at this; omega
+  · intro idx hi rs hp _
+    rw [pick_replicate r n idx rs (hlen idx hi) hp]; exact hpt
+
+/-- vacuity for the two theorems above: 3 identical rows (label 1, prediction 1), selection rate, two resamples with
+    repetitions; all hypotheses hold, the CI exists, and its entries are the point estimate 1 -/
+example : (0 < 3) ∧ ([[0, 0, 2], [1, 2, 2]] : List (List Nat)) ≠ [] ∧
+    (∀ idx ∈ ([[0, 0, 2], [1, 2, 2]] : List (List Nat)), idx.length = 3) ∧
+    evalB (.w (.sel 1)) (List.replicate 3 ⟨0, 1, 1, 1, 1⟩) = .ok 1 ∧
+    (ci false (.w (.sel 1)) (List.replicate 3 ⟨0, 1, 1, 1, 1⟩) [[0, 0, 2], [1, 2, 2]] [1/10, 9/10]).map (·.overall) =
+      some [.fin 1, .fin 1] := by decide +kernel
+
+/-- a metric that is constant on the resamples without the rows being identical: all predictions are 1, labels and
+    groups vary; selection rate is 1 on every resample -/
+example : (ci false (.w (.sel 1)) [⟨0, 1, 1, 1, 1⟩, ⟨1, 0, 1, 1, 1⟩, ⟨1, 1, 1, 1, 2⟩] [[0, 1, 1], [2, 2, 0]] [1/4, 3/4]).map
+    (·.overall) = some [.fin 1, .fin 1] := by decide +kernel
+
 /-! ### 5. non-constant samples give an interval of positive width -/
 
 /-- k sample values that are not all equal: a pair with `q_lo·(k−1) < 1`, `q_hi·(k−1) > k−2` and
@@ -109,6 +214,35 @@ theorem mean_strictly_between_min_max (xs : List Rat) (lo hi : Rat) (hb : ∀ x 
     (a b : Rat) (ha : a ∈ xs) (hb' : b ∈ xs) (hla : lo < a) (hbh : b < hi) :
     lo < mean xs ∧ mean xs < hi :=
   mean_strictly_inside xs lo hi hb a b ha hb' hla hbh
+
+/-- NEW (R2): the widest pair, q = 0 and q = 1 (min and max of the resampled values), always encloses the resampling
+    mean … -/
+theorem extreme_pair_encloses_mean (xs : List Rat) (hne : xs ≠ []) :
+    quantileLinear xs 0 ≤ mean xs ∧ mean xs ≤ quantileLinear xs 1 :=
+  mean_between_extreme_quantiles xs hne
+
+/-- NEW (R2): … but for quantiles strictly inside (0,1) "a wide pair encloses the mean" is FALSE of numpy's linear
+    quantile, even under all the width hypotheses of `nonconstant_gives_width`: resampled values 0,0,0,100 and the pair
+    (1/10, 7/10) give the interval [0, 10] of positive width, the mean is 25.  (`np.quantile([0,0,0,100],[.1,.7])` =
+    `[0., 10.]`, `np.mean` = 25.0 — replayed on numpy 2.5.)  The clause is therefore kept as: positive width (theorem)
+    + mean strictly inside (min, max) (theorem) + enclosure at the extreme pair (theorem). -/
+theorem wide_pair_need_not_enclose_mean :
+    ∃ (xs : List Rat) (a b qlo qhi : Rat), a ∈ xs ∧ b ∈ xs ∧ a < b ∧ 0 ≤ qlo ∧ qhi ≤ 1 ∧ qlo < qhi ∧
+      qlo * ((xs.length : Rat) - 1) < 1 ∧ (xs.length : Rat) - 2 < qhi * ((xs.length : Rat) - 1) ∧
+      quantileLinear xs qlo < quantileLinear xs qhi ∧ quantileLinear xs qhi < mean xs :=
+  ⟨[0, 0, 0, 100], 0, 100, 1/10, 7/10, by decide +kernel⟩
+
+/-- vacuity of `nonconstant_gives_width`: ALL its hypotheses at once on a 4-sample column (both order statistics cells
+    are interior: h_lo = 3/10 ∈ cell 0, h_hi = 27/10 ∈ the last cell) -/
+example : (1 : Rat) ∈ ([3, 1, 2, 10] : List Rat) ∧ (10 : Rat) ∈ ([3, 1, 2, 10] : List Rat) ∧ (1 : Rat) < 10 ∧
+    (0 : Rat) ≤ 1/10 ∧ (9/10 : Rat) ≤ 1 ∧ (1/10 : Rat) < 9/10 ∧
+    (1/10 : Rat) * ((([3, 1, 2, 10] : List Rat).length : Rat) - 1) < 1 ∧
+    ((([3, 1, 2, 10] : List Rat).length : Rat) - 2) < (9/10 : Rat) * ((([3, 1, 2, 10] : List Rat).length : Rat) - 1) ∧
+    quantileLinear [3, 1, 2, 10] (1/10) = 13/10 ∧ quantileLinear [3, 1, 2, 10] (9/10) = 79/10 := by decide +kernel
+
+/-- vacuity of `mean_strictly_between_min_max` (all hypotheses, non-constant list) -/
+example : (∀ x ∈ ([3, 1, 2, 10] : List Rat), (1 : Rat) ≤ x ∧ x ≤ 10) ∧ (3 : Rat) ∈ ([3, 1, 2, 10] : List Rat) ∧
+    (2 : Rat) ∈ ([3, 1, 2, 10] : List Rat) ∧ (1 : Rat) < 3 ∧ (2 : Rat) < 10 ∧ mean [3, 1, 2, 10] = 4 := by decide +kernel
 
 /-! ### Non-vacuity: concrete inputs meeting the hypotheses, evaluated by the kernel. -/
 
@@ -129,6 +263,16 @@ example : (ci false .count exRows exIdxs [1/10, 9/10]).map (·.overall) = some [
   decide +kernel
 example : (ci false (.const 7) exRows exIdxs [1/10, 1/2]).map (·.overall) = some [.fin 7, .fin 7] := by
   decide +kernel
+/-- vacuity of `count_is_n`, `ci_length_and_order`, `ci_length`, `ci_shape`, `constant_metric_all_quantiles`: ALL
+    hypotheses at once on 4 rows / 2 groups / both labels / 3 resamples with repetitions / 2 quantiles -/
+example : (0 < 4) ∧ exIdxs ≠ [] ∧ (∀ idx ∈ exIdxs, idx.length = 4) ∧ (∀ idx ∈ exIdxs, idx ≠ []) ∧
+    (∀ q ∈ ([1/10, 9/10] : List Rat), 0 ≤ q ∧ q ≤ 1) ∧
+    (ci false .count exRows exIdxs [1/10, 9/10]).isSome = true ∧
+    (ci true (.w (.sel 1)) exRows exIdxs [1/10, 9/10]).isSome = true ∧
+    (ci false (.const 7) exRows exIdxs [1/10, 9/10]).isSome = true := by decide +kernel
+/-- … and the by-group table of that case is not degenerate: two rows, group 1 absent from the third resample -/
+example : (ci false (.w (.sel 1)) exRows exIdxs [1/10, 9/10]).map (·.byGroup) =
+    some [[.fin 1, .fin 1], [.fin 0, .fin 0]] := by decide +kernel
 /-- a ratio that is 0/0 in one resample makes `np.quantile` (no control features) return NaN -/
 example : (ci false (.w (.sel 1)) [⟨0, 1, 0, 0, 1⟩, ⟨0, 1, 1, 1, 1⟩] [[0, 0], [1, 0]] [1/2]).map (·.ratioBetween) =
     some [.nan] := by decide +kernel
@@ -208,6 +352,13 @@ theorem src_count_is_n (frame : Bool) (rows : List WRow) (idxs : List (List Nat)
 example : (ciSrc false (.w (.sel 1)) exRows exIdxs [9/10, 1/10]).map (·.overall) =
     some [.fin (9/10), .fin (1/2)] := by decide +kernel
 example : exIdxs.all (validResample exRows.length) = true := by decide +kernel
+/-- vacuity of `src_count_is_n` / `src_ci_length_and_order`: all hypotheses at once -/
+example : (0 < exRows.length) ∧ exIdxs ≠ [] ∧ (∀ idx ∈ exIdxs, validResample exRows.length idx = true) ∧
+    (∀ q ∈ ([9/10, 1/10] : List Rat), 0 ≤ q ∧ q ≤ 1) ∧
+    (ciSrc true .count exRows exIdxs [9/10, 1/10]).map (·.overall) = some [.fin 4, .fin 4] := by decide +kernel
+/-- vacuity of `src_quantile_mono` -/
+example : ([3, 1, 2, 10] : List Rat) ≠ [] ∧ quantileBy seriesMethod [3, 1, 2, 10] (1/10) = 13/10 ∧
+    quantileBy frameMethod [3, 1, 2, 10] (9/10) = 79/10 := by decide +kernel
 
 end Src
 
@@ -265,5 +416,32 @@ theorem frame_entrywise (ms : List BMetric) (levels : List Nat) (tr : List TRow)
 
 example : ciAt 1 (.w (.sel 1)) [(0, ⟨0, 1, 1, 1, 1⟩), (1, ⟨0, 0, 1, 1, 1⟩), (1, ⟨1, 1, 0, 0, 1⟩)] [[2, 0, 1], [1, 1, 0]] [1/2] =
     ci true (.w (.sel 1)) [⟨0, 0, 1, 1, 1⟩, ⟨1, 1, 0, 0, 1⟩] [[1, 0], [0, 0]] [1/2] := by decide +kernel
+
+/-! ### review R2: vacuity witnesses for the control-feature / NaN theorems of section 7 -/
+
+/-- vacuity of `no_cross_talk_between_levels`: two data sets with the same control tags that differ ONLY in a row of
+    level 0 (label, prediction and group changed) — all hypotheses hold, and the level-1 CI is the same -/
+def ctA : List TRow := [(0, ⟨0, 1, 1, 1, 1⟩), (1, ⟨0, 0, 1, 1, 1⟩), (1, ⟨1, 1, 0, 0, 1⟩)]
+def ctB : List TRow := [(0, ⟨1, 0, 0, 0, 1⟩), (1, ⟨0, 0, 1, 1, 1⟩), (1, ⟨1, 1, 0, 0, 1⟩)]
+example : ctA.map (fun p => p.1) = ctB.map (fun p => p.1) := by decide +kernel
+theorem ct_rows : ∀ (i : Nat) (p q : TRow), ctA[i]? = some p → ctB[i]? = some q → p.1 = 1 → p.2 = q.2 := by
+  intro i p q h1 h2 hL
+  match i with
+  | 0 => simp [ctA] at h1; subst h1; simp at hL
+  | 1 => simp [ctA] at h1; simp [ctB] at h2; subst h1; subst h2; rfl
+  | 2 => simp [ctA] at h1; simp [ctB] at h2; subst h1; subst h2; rfl
+  | n + 3 => simp [ctA] at h1
+example : ciAt 1 (.w (.sel 1)) ctA [[2, 0, 1], [1, 1, 0]] [1/2] = ciAt 1 (.w (.sel 1)) ctB [[2, 0, 1], [1, 1, 0]] [1/2] :=
+  no_cross_talk_between_levels 1 (.w (.sel 1)) ctA ctB (by decide +kernel) ct_rows _ _
+/-- … and it is a statement with content: level 0 DOES change -/
+example : ciAt 0 (.w (.sel 1)) ctA [[2, 0, 1], [1, 1, 0]] [1/2] ≠ ciAt 0 (.w (.sel 1)) ctB [[2, 0, 1], [1, 1, 0]] [1/2] := by
+  decide +kernel
+/-- vacuity of `level_resample_is_filtered_resample`: positions in range, level 1 hit twice by [2, 0, 1] -/
+example : (∀ i ∈ ([2, 0, 1] : List Nat), i < ctA.length) ∧ restrict 1 ctA [2, 0, 1] = [1, 0] ∧
+    pick (levelRows 1 ctA) (restrict 1 ctA [2, 0, 1]) = some [⟨1, 1, 0, 0, 1⟩, ⟨0, 0, 1, 1, 1⟩] := by decide +kernel
+/-- vacuity of `nan_skipped_in_frames` (third clause) and `nan_propagates_in_series` on the same column -/
+example : finOnly (([.fin 1, .nan, .fin 3] : List XR).filter (fun x => !isNaN x)) = some [1, 3] ∧
+    quantileXR true [.fin 1, .nan, .fin 3] (1/2) = some (.fin 2) ∧
+    quantileXR false [.fin 1, .nan, .fin 3] (1/2) = some .nan := by decide +kernel
 
 end C18
